@@ -38,7 +38,7 @@ class CE:
 optree.register_pytree_node(CE, lambda o: (tuple(o.ch), None, o.entries), lambda m, c: CE(c, [EntryObj(i) for i in range(len(c))]),
                             namespace='c14ns')
 
-ACTIONS = ('mutate_source', 'mutate_returned', 'unregister', 'rereg', 'gc', 'del_tree', 'use_spec')
+ACTIONS = ('mutate_source', 'mutate_returned', 'unregister', 'rereg', 'gc', 'del_tree', 'use_spec', 'rereg_other')
 
 
 def full_observe(spec):
@@ -52,6 +52,21 @@ def full_observe(spec):
     except Exception as e:  # noqa: BLE001
         o['unflatten'] = f'raises {type(e).__name__}: {e}'
     return o
+
+
+def register_other(cls, ns):
+    """register `cls` in `ns` with functions that differ from the universe's: children in reverse order"""
+    fl, un, pet = U.MODEL_REGISTRY[(ns, cls)]
+    if fl is U._cls_flatten:
+        fl, un = (lambda o: o.tree_flatten()), cls.tree_unflatten
+
+    def fl2(o, _fl=fl):
+        out = _fl(o)
+        return tuple(out[0])[::-1], out[1]
+
+    def un2(meta, children, _un=un):
+        return _un(meta, tuple(children)[::-1])
+    optree.register_pytree_node(cls, fl2, un2, path_entry_type=pet, namespace=U.GLOBAL if ns == '' else ns)
 
 
 def describe(x):
@@ -237,8 +252,22 @@ class C14(runner.Prop):
         victim = case['victim'] if (case['victim'] in present or not present) else present[0]
         vcls, vns = U.VICTIMS[victim]
         unregistered = False
+        other_registered = False
         if present:
             ctx.label('mentions_victim')
+        # flatten_up_to of the treespec against a second copy of the source tree: what it returns at creation is what
+        # it may return later - or it may refuse (the registration it was made with is gone) - never anything else
+        probe = gen.build(case['t'])
+
+        def up_to():
+            try:
+                return ('ok', [id(x) for x in spec.flatten_up_to(probe)])
+            except ValueError:
+                return ('ValueError',)
+            except Exception as e:  # noqa: BLE001
+                return ('exc', f'{type(e).__name__}: {e}')
+        with gen.ModeCtx(cfg):
+            base_up = up_to()
         try:
             for i, a in enumerate(case['actions']):
                 ctx.label('action:' + a)
@@ -248,12 +277,18 @@ class C14(runner.Prop):
                     mutate_returned(spec, leaves)
                 elif a == 'unregister' and not unregistered:
                     U.unregister(vcls, vns)
-                    unregistered = True
+                    unregistered, other_registered = True, False
                 elif a == 'rereg':
                     if not unregistered:
                         U.unregister(vcls, vns)
                     U.register_again(vcls, vns)
-                    unregistered = False
+                    unregistered, other_registered = False, False
+                elif a == 'rereg_other':
+                    # the victim type gets a *different* registration (children in reverse order, same metadata)
+                    if other_registered or not unregistered:
+                        U.unregister(vcls, vns)
+                    register_other(vcls, vns)
+                    other_registered, unregistered = True, False
                 elif a == 'gc':
                     gc.collect()
                 elif a == 'del_tree':
@@ -271,10 +306,18 @@ class C14(runner.Prop):
                 if d:
                     ctx.fail(f'snapshot/{a}', f'after action {i} ({a}): {d}')
                     break
+                with gen.ModeCtx(cfg):
+                    cur_up = up_to()
+                if cur_up[0] == 'exc' or (cur_up[0] == 'ok' and base_up[0] == 'ok' and cur_up != base_up):
+                    ctx.fail(f'snapshot/flatten_up_to/{a}', f'after action {i} ({a}): {cur_up[:2]!r} (at creation {base_up[0]})')
+                    break
                 for getter in ('paths', 'accessors', 'entries', 'children'):
                     if getattr(spec, getter)() is getattr(spec, getter)():
                         ctx.fail(f'fresh_list/{getter}', 'same list object returned twice')
         finally:
+            if other_registered:
+                U.unregister(vcls, vns)
+                unregistered = True
             if unregistered:
                 U.register_again(vcls, vns)
 
